@@ -18,15 +18,11 @@
 (*   "TryWaitNoCache"   Process::try_wait does not remember the status it reaped (a blind  *)
 (*                      mutant): the next wait / try_wait asks the kernel again -> ECHILD   *)
 (*   "EintrNotRetried"  the parent's read of the sync pipe is not repeated after EINTR (a    *)
-(*                      blind mutant): Err although the child goes on to exec               *)
+(*                      blind mutant): treated like a failed read - the parent waits for    *)
+(*                      the child, which has exec'ed and runs the program, and says Err     *)
+(*   "EintrReturnsAtOnce" the same, but Err(EINTR) is returned at once: the child is alive   *)
+(*                      and goes on to exec, un-owned                                       *)
 (* Dev = {} is the code as it stands after the `fix:` commits (see notes/C13.md).           *)
-(* KNOWN FINDING kept in the model as coded: a read of the sync pipe that fails with        *)
-(* anything but EINTR (or is short) makes the parent wait for the child - which may have    *)
-(* exec'ed and run the program - and return Err: ErrMeansNoExec is violated on exactly      *)
-(* those plans (KnownInModel); such a failure cannot happen on a real pipe, only by         *)
-(* injection, and there is no repair that un-runs the program.                              *)
-(* The property-level clauses (SpawnAbs) are evaluated on the observation Obs in EVERY      *)
-(* reachable state.                                                                         *)
 EXTENDS SpawnAbs, TLC
 
 CONSTANTS StartFeature,   \* BOOLEAN: tiny-std feature `start`
@@ -38,7 +34,6 @@ NULL  == "NULL"
 EPERM  == 1
 ENOENT == 2
 OtherId == 1               \* an unprivileged user / group different from the caller's (which is 0, privileged)
-EINTR  == 4
 EINVAL == 22
 HelperStatus == 7 * 256    \* the helper program exits with 7
 ECHILD == 10
@@ -262,7 +257,11 @@ ReadPipe ==
     /\ pc.P = "p_read"
     /\ IF Hit("P", "read")
        THEN /\ Did("P", "read", fault.err)
-            /\ IF fault.err = EINTR /\ "EintrNotRetried" \notin Dev
+            /\ IF fault.err = EINTR /\ "EintrReturnsAtOnce" \in Dev
+               THEN /\ perr' = EINTR                          \* deviation: Err(EINTR) without waiting for the child
+                    /\ pres' = "err"
+                    /\ Goto("P", "ret")
+               ELSE IF fault.err = EINTR /\ "EintrNotRetried" \notin Dev
                THEN UNCHANGED <<pc, perr, pres>>              \* ReadPipe(EINTR): retry
                ELSE /\ perr' = NoCode                          \* ReadPipe(err) / ReadPipe(short)
                     /\ pres' = "err"
@@ -546,8 +545,7 @@ VectorsTerminated == Terminated(argv) /\ (envmode = "provided" => Terminated(env
 \* what the caller has configured by now: a builder step between the two spawns counts for the second
 AbsCfgNow == [AbsCfg(cfg) EXCEPT !.args = IF round = 2 /\ cfg.respawn = "arg" THEN Append(@, "a3") ELSE @]
 AbsViolated == Violated(AbsCfgNow, Obs, Terminal)
-KnownInModel == IF fault.p = "P" /\ fault.sys = "read" /\ fault.err # EINTR THEN {"ErrMeansNoExec"} ELSE {}
-AbsHolds == AbsViolated \ KnownInModel = {}
+AbsHolds == AbsViolated = {}
 
 \* "the parent never blocks forever on the sync pipe" = absence of deadlock (CHECK_DEADLOCK
 \* TRUE; Terminal states stutter)
